@@ -451,7 +451,7 @@ def periodic_lines(ctx, spec, bank, i, W, lay, eps):
 def gen_banks(ctx):
     r = ctx.rng
     specs = [dict(s) for s in FIXED_SPECS]
-    n = ctx.scale(260, 10000)
+    n = ctx.scale(600, 10000)
     while len(specs) < n:
         specs.append(random_spec(r))
     return specs
